@@ -1,0 +1,80 @@
+//! Verification hook (only compiled with `--cfg rssched_verif`): records the schedules that flow
+//! between the stages of `solve_instance` on the calling thread. Inert unless a harness switched
+//! it on, so the server binary does not accumulate anything per request.
+
+use std::cell::RefCell;
+
+use im::HashMap;
+use model::base_types::VehicleTypeIdx;
+use solution::transition::Transition;
+use solution::Schedule;
+
+#[derive(Default)]
+pub struct Recording {
+    /// (stage name, schedule bound at that point of solve_instance), in pipeline order
+    pub stages: Vec<(String, Schedule)>,
+    /// the transitions returned by the transition optimisation
+    pub optimized_transitions: Option<HashMap<VehicleTypeIdx, Transition>>,
+    /// accepted local-search steps (hook H1)
+    pub steps: Vec<solver::verif::Step>,
+}
+
+impl Recording {
+    pub fn len(&self) -> usize {
+        self.stages.len()
+    }
+
+    pub fn is_empty(&self) -> bool {
+        self.stages.is_empty()
+    }
+
+    pub fn ls_steps(&self) -> usize {
+        self.steps.len()
+    }
+
+    pub fn stage(&self, name: &str) -> Option<&Schedule> {
+        self.stages.iter().find(|(n, _)| n == name).map(|(_, s)| s)
+    }
+
+    /// (stage name, unserved passengers) in pipeline order
+    pub fn unserved_by_stage(&self) -> Vec<(String, u64)> {
+        self.stages
+            .iter()
+            .map(|(n, s)| {
+                let u = s.unserved_passengers();
+                (n.clone(), u.0 as u64 + u.1 as u64)
+            })
+            .collect()
+    }
+}
+
+thread_local! {
+    static RECORDING: RefCell<Option<Recording>> = const { RefCell::new(None) };
+}
+
+pub fn start_recording() {
+    RECORDING.with(|r| *r.borrow_mut() = Some(Recording::default()));
+    solver::verif::start_recording();
+}
+
+pub fn take_recording() -> Recording {
+    let mut recording = RECORDING.with(|r| r.borrow_mut().take().unwrap_or_default());
+    recording.steps = solver::verif::take_recording();
+    recording
+}
+
+pub(crate) fn record_stage(name: &str, schedule: &Schedule) {
+    RECORDING.with(|r| {
+        if let Some(recording) = r.borrow_mut().as_mut() {
+            recording.stages.push((name.to_string(), schedule.clone()));
+        }
+    });
+}
+
+pub(crate) fn record_transitions(transitions: &HashMap<VehicleTypeIdx, Transition>) {
+    RECORDING.with(|r| {
+        if let Some(recording) = r.borrow_mut().as_mut() {
+            recording.optimized_transitions = Some(transitions.clone());
+        }
+    });
+}
